@@ -261,11 +261,13 @@ def imp_events(tier: str, r) -> List[Dict[str, Any]]:
     for k, mag in enumerate([2 ** 31, 2 ** 31 + 1, 2 ** 32, 2 ** 63, 2 ** 64 + 7,
                              10 ** 30, 10 ** 100,
                              # beyond what a C double can hold
-                             2 ** 1023, 2 ** 1024, 2 ** 1024 + 1, 10 ** 400, 10 ** 1000 + 7]
+                             2 ** 1023, 2 ** 1024, 2 ** 1024 + 1, 10 ** 400, 10 ** 1000 + 7,
+                             # beyond what int -> str conversion accepts by default (4300 digits)
+                             10 ** 4299, 10 ** 4300, 10 ** 5000 + 1, 3 ** 40000]
                             + [r.randrange(2 ** 31, 2 ** 80) for _ in range(40)]):
         for s in (1, -1):
             e = {'tid': f'g{k}.{s}', 'ev': 'impbig', 'sign': s,
-                 'digits': len(str(mag))}
+                 'digits': int(mag.bit_length() * 0.30103) + 1}
             e.update(_call(f, s * mag))
             evs.append(e)
     # the other ways into the same functions: keyword arguments, **dict,
@@ -280,6 +282,17 @@ def imp_events(tier: str, r) -> List[Dict[str, Any]]:
         for name, fn in entry:
             e = {'tid': f'k{k}.{name}', 'ev': 'imp', 'd': d, 'entry': name}
             e.update(_call(fn, d))
+            evs.append(e)
+    # two huge scores whose SUM is small: the two-score form is the scale of the sum
+    for k, (big, d) in enumerate([(10 ** 30, 50), (2 ** 1024, -430), (10 ** 400, 0), (10 ** 4300, 20),
+                                  (10 ** 5000, 50), (3 ** 40000, -3999), (10 ** 5000, 4000)]):
+        for sg in (1, -1):
+            e = {'tid': f'h{k}.{sg}', 'ev': 'imp', 'd': d, 'entry': 'two huge scores',
+                 'digits': int(big.bit_length() * 0.30103) + 1}
+            e.update(_call(g, sg * big, d - sg * big))
+            evs.append(e)
+            e = {'tid': f'h{k}.{sg}b', 'ev': 'imp', 'd': d, 'entry': 'two huge scores, swapped'}
+            e.update(_call(g, d - sg * big, sg * big))
             evs.append(e)
     for k, (a, b) in enumerate([(300, -200), (-300, 200), (-7600, -7600), (0, -20), (-20, 0), (10, -30)]):
         for name, fn in [('kw', lambda a_, b_: g(first_score=a_, second_score=b_)), ('kw-swapped', lambda a_, b_: g(second_score=b_, first_score=a_))]:
